@@ -75,9 +75,9 @@ type c17Req struct {
 	Files   []int    `json:"files,omitempty"` // 1..3: stored blobs, -1: not a hash
 	Added   []string `json:"added,omitempty"`
 	Removed []string `json:"removed,omitempty"`
-	Repo    string   `json:"repo,omitempty"` // "" | "__default" | anything else (unknown)
-	Omit    bool     `json:"omit,omitempty"` // leave out the first required input field
-	Null    bool     `json:"null,omitempty"` // send input: null
+	Repo    string   `json:"repo,omitempty"`    // "" | "__default" | anything else (unknown)
+	Omit    bool     `json:"omit,omitempty"`    // leave out the first required input field
+	Null    bool     `json:"null,omitempty"`    // send input: null
 	Payload string   `json:"payload,omitempty"` // upload: png | gif | jpeg | text | empty | nofield | notmultipart
 	PN      int      `json:"pn,omitempty"`
 }
@@ -136,9 +136,9 @@ func (t *c17TypeRef) isList() bool {
 }
 
 type c17Field struct {
-	Name string       `json:"name"`
-	Type *c17TypeRef  `json:"type"`
-	Args []c17Field   `json:"args"`
+	Name string      `json:"name"`
+	Type *c17TypeRef `json:"type"`
+	Args []c17Field  `json:"args"`
 }
 type c17Type struct {
 	Kind        string     `json:"kind"`
@@ -230,14 +230,14 @@ type c17State struct {
 	QErr    string      `json:"query_err,omitempty"`
 }
 type c17Resp struct {
-	HTTP    int      `json:"http"`
-	Errors  []string `json:"errors,omitempty"`
-	Class   string   `json:"class,omitempty"` // ENotAuth | ENotFound | EMultiple | EOther ; "" = ok
-	Bug     *c17QBug `json:"bug,omitempty"`
-	OpIds   []string `json:"opids,omitempty"`
-	OpAu    []int    `json:"opau,omitempty"`
-	Blob    int      `json:"blob,omitempty"`
-	Body    string   `json:"body,omitempty"`
+	HTTP   int      `json:"http"`
+	Errors []string `json:"errors,omitempty"`
+	Class  string   `json:"class,omitempty"` // ENotAuth | ENotFound | EMultiple | EOther ; "" = ok
+	Bug    *c17QBug `json:"bug,omitempty"`
+	OpIds  []string `json:"opids,omitempty"`
+	OpAu   []int    `json:"opau,omitempty"`
+	Blob   int      `json:"blob,omitempty"`
+	Body   string   `json:"body,omitempty"`
 }
 type c17Concrete struct {
 	Doc     string                 `json:"doc,omitempty"`
@@ -453,7 +453,7 @@ func (sc *c17Schema) selection(t *c17TypeRef) string {
 			parts = append(parts, f.Name)
 		case ft.Name == "Bug":
 			parts = append(parts, f.Name+" { ...B }")
-		case (ft.Kind == "OBJECT" || ft.Kind == "INTERFACE") && hasField(ft, "id") && hasField(ft, "author"):
+		case (ft.Kind == "OBJECT" || ft.Kind == "INTERFACE") && c17HasField(ft, "id") && c17HasField(ft, "author"):
 			parts = append(parts, f.Name+" { id author { id } }")
 		default:
 			parts = append(parts, f.Name+" { __typename }")
@@ -464,7 +464,7 @@ func (sc *c17Schema) selection(t *c17TypeRef) string {
 	}
 	return " { " + strings.Join(parts, " ") + " }"
 }
-func hasField(t *c17Type, n string) bool {
+func c17HasField(t *c17Type, n string) bool {
 	for _, f := range t.Fields {
 		if f.Name == n {
 			return true
@@ -641,17 +641,17 @@ func (s *c17Sess) prefixes(req c17Req, pre *c17State) (string, string) {
 		n := nothing()
 		return n, n
 	}
-	b := pre.Git[mod(req.Bug, len(pre.Git))]
+	b := pre.Git[c17Mod(req.Bug, len(pre.Git))]
 	bp := cut(b.Id, req.PLen)
 	cp := nothing()
 	if len(b.Snap.Comments) > 0 {
-		c := b.Snap.Comments[mod(req.Comment, len(b.Snap.Comments))]
+		c := b.Snap.Comments[c17Mod(req.Comment, len(b.Snap.Comments))]
 		cp = cut(string(entity.CombineIds(entity.Id(b.Id), entity.Id(c.Id))), req.PLen)
 	}
 	return bp, cp
 }
 
-func mod(a, n int) int {
+func c17Mod(a, n int) int {
 	if n <= 0 {
 		return 0
 	}
@@ -676,37 +676,37 @@ func (s *c17Sess) classify(msg string) string {
 	return "EOther"
 }
 
-func asMap(v interface{}) map[string]interface{} { m, _ := v.(map[string]interface{}); return m }
-func asList(v interface{}) []interface{}          { l, _ := v.([]interface{}); return l }
-func asStr(v interface{}) string                  { x, _ := v.(string); return x }
+func c17Map(v interface{}) map[string]interface{} { m, _ := v.(map[string]interface{}); return m }
+func c17List(v interface{}) []interface{}         { l, _ := v.([]interface{}); return l }
+func c17Str(v interface{}) string                 { x, _ := v.(string); return x }
 
 // snapFromGQL decodes the B fragment.
 func (s *c17Sess) snapFromGQL(m map[string]interface{}) c17QBug {
-	q := c17QBug{Id: asStr(m["id"])}
-	q.Snap.Closed = asStr(m["status"]) == "CLOSED"
-	q.Snap.Title = asStr(m["title"])
-	for _, l := range asList(m["labels"]) {
-		q.Snap.Labels = append(q.Snap.Labels, asStr(asMap(l)["name"]))
+	q := c17QBug{Id: c17Str(m["id"])}
+	q.Snap.Closed = c17Str(m["status"]) == "CLOSED"
+	q.Snap.Title = c17Str(m["title"])
+	for _, l := range c17List(m["labels"]) {
+		q.Snap.Labels = append(q.Snap.Labels, c17Str(c17Map(l)["name"]))
 	}
 	ids := func(v interface{}) []int {
 		r := []int{}
-		for _, n := range asList(asMap(v)["nodes"]) {
-			r = append(r, s.identIndex(entity.Id(asStr(asMap(n)["id"]))))
+		for _, n := range c17List(c17Map(v)["nodes"]) {
+			r = append(r, s.identIndex(entity.Id(c17Str(c17Map(n)["id"]))))
 		}
 		return r
 	}
 	q.Snap.Actors = ids(m["actors"])
 	q.Snap.Parts = ids(m["participants"])
-	ops := asList(asMap(m["operations"])["nodes"])
+	ops := c17List(c17Map(m["operations"])["nodes"])
 	q.Snap.NOps = len(ops)
 	opIds := []string{}
 	for _, o := range ops {
-		opIds = append(opIds, asStr(asMap(o)["id"]))
+		opIds = append(opIds, c17Str(c17Map(o)["id"]))
 	}
 	q.Snap.Comments = []c17Comment{}
-	for _, c := range asList(asMap(m["comments"])["nodes"]) {
-		cm := asMap(c)
-		cid := asStr(cm["id"])
+	for _, c := range c17List(c17Map(m["comments"])["nodes"]) {
+		cm := c17Map(c)
+		cid := c17Str(cm["id"])
 		opid := ""
 		for _, o := range opIds {
 			if string(entity.CombineIds(entity.Id(q.Id), entity.Id(o))) == cid {
@@ -714,10 +714,10 @@ func (s *c17Sess) snapFromGQL(m map[string]interface{}) c17QBug {
 			}
 		}
 		var files []int
-		for _, f := range asList(cm["files"]) {
-			files = append(files, s.fileIndex(asStr(f)))
+		for _, f := range c17List(cm["files"]) {
+			files = append(files, s.fileIndex(c17Str(f)))
 		}
-		q.Snap.Comments = append(q.Snap.Comments, c17Comment{Id: opid, Au: s.identIndex(entity.Id(asStr(asMap(cm["author"])["id"]))), Msg: asStr(cm["message"]), Files: files})
+		q.Snap.Comments = append(q.Snap.Comments, c17Comment{Id: opid, Au: s.identIndex(entity.Id(c17Str(c17Map(cm["author"])["id"]))), Msg: c17Str(cm["message"]), Files: files})
 	}
 	return q
 }
@@ -856,8 +856,8 @@ func (s *c17Sess) observe(user *entity.Id) c17State {
 	} else {
 		st.QueryOK = true
 		st.Query = []c17QBug{}
-		for _, n := range asList(asMap(asMap(data["repository"])["allBugs"])["nodes"]) {
-			st.Query = append(st.Query, s.snapFromGQL(asMap(n)))
+		for _, n := range c17List(c17Map(c17Map(data["repository"])["allBugs"])["nodes"]) {
+			st.Query = append(st.Query, s.snapFromGQL(c17Map(n)))
 		}
 		sort.Slice(st.Query, func(i, j int) bool { return st.Query[i].Id < st.Query[j].Id })
 	}
@@ -866,7 +866,7 @@ func (s *c17Sess) observe(user *entity.Id) c17State {
 
 // setup builds the initial bugs through the cache with the *Raw functions.
 func (s *c17Sess) setup(in c17Input) error {
-	author := func(i int) (*cache.IdentityCache, error) { return s.rc.Identities().Resolve(s.idents[mod(i, 2)]) }
+	author := func(i int) (*cache.IdentityCache, error) { return s.rc.Identities().Resolve(s.idents[c17Mod(i, 2)]) }
 	t := int64(1600000000)
 	for _, sb := range in.Bugs {
 		au, err := author(sb.Author)
@@ -921,7 +921,7 @@ func (s *c17Sess) setup(in c17Input) error {
 	return nil
 }
 
-func gitBlobHash(data []byte) string {
+func c17BlobHash(data []byte) string {
 	h := sha1.New()
 	fmt.Fprintf(h, "blob %d\x00", len(data))
 	h.Write(data)
@@ -958,7 +958,7 @@ func (s *c17Sess) contents(in c17Input) {
 		if len(data) == 0 {
 			continue // the empty blob is git-bug's own (clock and version tree entries)
 		}
-		h := gitBlobHash(data)
+		h := c17BlobHash(data)
 		if _, ok := s.content[h]; !ok {
 			s.conts = append(s.conts, h)
 			s.content[h] = len(s.conts)
@@ -983,7 +983,7 @@ func (s *c17Sess) upload(req c17Req) (c17Resp, c17Concrete) {
 		} else {
 			ft := http.DetectContentType(data)
 			con.Image = ft == "image/jpeg" || ft == "image/jpg" || ft == "image/gif" || ft == "image/png"
-			con.Content = s.content[gitBlobHash(data)]
+			con.Content = s.content[c17BlobHash(data)]
 			con.Form = "FFile"
 		}
 		part, _ := w.CreateFormFile(field, "noname")
@@ -1023,11 +1023,11 @@ func (s *c17Sess) mutate(req c17Req, pre *c17State) (c17Resp, c17Concrete) {
 		resp.Class = s.classify(msg)
 		return resp, con
 	}
-	pay := asMap(data[req.Field])
+	pay := c17Map(data[req.Field])
 	// operations in the order of the payload type's fields
 	if pt := s.schema.Types[f.Type.named().Name]; pt != nil {
 		for _, pf := range pt.Fields {
-			v := asMap(pay[pf.Name])
+			v := c17Map(pay[pf.Name])
 			if v == nil {
 				continue
 			}
@@ -1036,7 +1036,7 @@ func (s *c17Sess) mutate(req c17Req, pre *c17State) (c17Resp, c17Concrete) {
 				resp.Bug = &q
 			} else if id, ok := v["id"].(string); ok {
 				resp.OpIds = append(resp.OpIds, id)
-				resp.OpAu = append(resp.OpAu, s.identIndex(entity.Id(asStr(asMap(v["author"])["id"]))))
+				resp.OpAu = append(resp.OpAu, s.identIndex(entity.Id(c17Str(c17Map(v["author"])["id"]))))
 			}
 		}
 	}
@@ -1083,21 +1083,21 @@ func (r *c17Ren) texts(xs []string) string {
 func (r *c17Ren) id(x string) string {
 	return fmt.Sprintf("%d%%N", r.ids[x])
 }
-func coqText(x string) string {
+func c17Text(x string) string {
 	rs := []rune(x)
 	if len(rs) == 0 {
 		return "[]"
 	}
 	return coqRunes(x)
 }
-func coqTexts(xs []string) string {
+func c17Texts2(xs []string) string {
 	ys := make([]string, len(xs))
 	for i, x := range xs {
-		ys[i] = coqText(x)
+		ys[i] = c17Text(x)
 	}
 	return coqList(ys)
 }
-func coqNList(xs []int) string {
+func c17NList(xs []int) string {
 	if len(xs) == 0 {
 		return "[]"
 	}
@@ -1112,16 +1112,16 @@ func (r *c17Ren) idList(xs []string) string {
 	for i, x := range xs {
 		ys[i] = r.ids[x]
 	}
-	return coqNList(ys)
+	return c17NList(ys)
 }
 func (r *c17Ren) op(o c17OpObs) string {
 	switch o.K {
 	case "create":
-		return fmt.Sprintf("OCreate %s %d%%N %s %s %s", r.id(o.Id), o.Au, r.text(o.Title), r.text(o.Msg), coqNList(o.Files))
+		return fmt.Sprintf("OCreate %s %d%%N %s %s %s", r.id(o.Id), o.Au, r.text(o.Title), r.text(o.Msg), c17NList(o.Files))
 	case "comment":
-		return fmt.Sprintf("OComment %s %d%%N %s %s", r.id(o.Id), o.Au, r.text(o.Msg), coqNList(o.Files))
+		return fmt.Sprintf("OComment %s %d%%N %s %s", r.id(o.Id), o.Au, r.text(o.Msg), c17NList(o.Files))
 	case "edit":
-		return fmt.Sprintf("OEdit %s %d%%N %s %s %s", r.id(o.Id), o.Au, r.id(o.Target), r.text(o.Msg), coqNList(o.Files))
+		return fmt.Sprintf("OEdit %s %d%%N %s %s %s", r.id(o.Id), o.Au, r.id(o.Target), r.text(o.Msg), c17NList(o.Files))
 	case "title":
 		return fmt.Sprintf("OTitle %s %d%%N %s %s", r.id(o.Id), o.Au, r.text(o.Title), r.text(o.Was))
 	case "status":
@@ -1134,10 +1134,10 @@ func (r *c17Ren) op(o c17OpObs) string {
 func (r *c17Ren) snap(s c17Snap) string {
 	cs := make([]string, len(s.Comments))
 	for i, c := range s.Comments {
-		cs[i] = fmt.Sprintf("{| cm_id := %s; cm_au := %d%%N; cm_msg := %s; cm_files := %s |}", r.id(c.Id), c.Au, r.text(c.Msg), coqNList(c.Files))
+		cs[i] = fmt.Sprintf("{| cm_id := %s; cm_au := %d%%N; cm_msg := %s; cm_files := %s |}", r.id(c.Id), c.Au, r.text(c.Msg), c17NList(c.Files))
 	}
 	return r.share("s", fmt.Sprintf("{| sn_closed := %s; sn_title := %s; sn_labels := %s; sn_comments := %s; sn_nops := %d; sn_actors := %s; sn_parts := %s |}",
-		coqBool(s.Closed), r.text(s.Title), r.texts(s.Labels), coqList(cs), s.NOps, coqNList(s.Actors), coqNList(s.Parts)))
+		coqBool(s.Closed), r.text(s.Title), r.texts(s.Labels), coqList(cs), s.NOps, c17NList(s.Actors), c17NList(s.Parts)))
 }
 func (r *c17Ren) state(st c17State, refRank, hashRank ranker, clockNames ranker) string {
 	var gs, cs, refs, clocks []string
@@ -1165,7 +1165,7 @@ func (r *c17Ren) state(st c17State, refRank, hashRank ranker, clockNames ranker)
 		}
 		q = "(Some " + coqList(qs) + ")"
 	}
-	return r.share("o", fmt.Sprintf("mkos %s %s %s %d %s %s %s", coqList(gs), coqList(cs), coqList(refs), st.NObj, coqList(clocks), coqNList(st.Blobs), q))
+	return r.share("o", fmt.Sprintf("mkos %s %s %s %d %s %s %s", coqList(gs), coqList(cs), coqList(refs), st.NObj, coqList(clocks), c17NList(st.Blobs), q))
 }
 
 func c17UserTerm(mode string) string {
@@ -1319,7 +1319,7 @@ func (c17Driver) Run(raw json.RawMessage) Case {
 	table := make([]string, len(rk.m))
 	for id, i := range rk.m {
 		if i >= 1 && i <= len(table) {
-			table[i-1] = coqText(id)
+			table[i-1] = c17Text(id)
 		}
 	}
 	// the code points in use that unicode.IsGraphic rejects (the model's oracle for text.Empty)
@@ -1358,15 +1358,15 @@ func (c17Driver) Run(raw json.RawMessage) Case {
 					files = append(files, f)
 				}
 				reqT = fmt.Sprintf("RMut %s {| a_wf := %s; a_repo_ok := %s; a_prefix := %s; a_title := %s; a_msg := %s; a_files := %s; a_added := %s; a_removed := %s; a_fresh := %s |} %s",
-					m, coqBool(so.Con.WF), coqBool(so.Con.RepoOK), coqText(so.Con.Prefix), ren.text(so.Req.Title), ren.text(so.Req.Msg),
-					coqNList(files), ren.texts(so.Req.Added), ren.texts(so.Req.Removed), ren.idList(so.New), u)
+					m, coqBool(so.Con.WF), coqBool(so.Con.RepoOK), c17Text(so.Con.Prefix), ren.text(so.Req.Title), ren.text(so.Req.Msg),
+					c17NList(files), ren.texts(so.Req.Added), ren.texts(so.Req.Removed), ren.idList(so.New), u)
 			} else {
 				reqT = "RUnknown " + u
 			}
 			if so.Resp.Class != "" {
 				respT = "PErr " + so.Resp.Class
 			} else if so.Resp.Bug != nil {
-				respT = fmt.Sprintf("POk {| p_bug := %s; p_snap := %s; p_ops := %s |} %s", ren.id(so.Resp.Bug.Id), ren.snap(so.Resp.Bug.Snap), ren.idList(so.Resp.OpIds), coqNList(so.Resp.OpAu))
+				respT = fmt.Sprintf("POk {| p_bug := %s; p_snap := %s; p_ops := %s |} %s", ren.id(so.Resp.Bug.Id), ren.snap(so.Resp.Bug.Snap), ren.idList(so.Resp.OpIds), c17NList(so.Resp.OpAu))
 			} else {
 				respT = "POkOpaque"
 			}
@@ -1374,7 +1374,7 @@ func (c17Driver) Run(raw json.RawMessage) Case {
 		stepTerms = append(stepTerms, fmt.Sprintf("mkstep (%s) (%s) %s", reqT, respT, ren.state(so.Post, rr, hr, cr)))
 	}
 	initT := ren.state(init, rr, hr, cr)
-	term := strings.Join(ren.binds, "") + fmt.Sprintf("mkcase %s %s %s %s %s", coqList(table), coqNList(ngl), coqBool(c17CreateKeepsFiles()), initT, coqList(stepTerms))
+	term := strings.Join(ren.binds, "") + fmt.Sprintf("mkcase %s %s %s %s %s", coqList(table), c17NList(ngl), coqBool(c17CreateKeepsFiles()), initT, coqList(stepTerms))
 	var tags []string
 	for t := range tagset {
 		tags = append(tags, t)
@@ -1575,9 +1575,9 @@ func (c17Driver) Gen(r *Rand, tier string) []json.RawMessage {
 	fields := c17Fields()
 	auths := []string{"none", "a", "b", "ghost"}
 	var res []json.RawMessage
-	rounds, random := 2, 240
+	rounds, random := 1, 200
 	if tier == "thorough" {
-		rounds, random = 40, 4800
+		rounds, random = 20, 4000
 	}
 	nonEmpty := func() []c17SBug {
 		for {
